@@ -121,6 +121,35 @@ def make_ddy_run(lower, upper):
     return run
 
 
+def run_shift_torsion(ctx):
+    """calcMetric sets ShiftTorsion to the x-derivative (DDX, contract above) of dphidy, whose
+    formula is geometry2's post-condition; `_eval_from_region` resolves "#dphidy" to the
+    region's own dphidy array."""
+    from hypnotoad.core import mesh as M
+
+    MLA = mk.mla_cls()
+    r = mk.skeleton_region(True)
+    for n in ("Rxy", "Bpxy", "hy", "Btxy"):
+        setattr(r, n, mk.sym_mla(ctx, n, ("centre", "ylow")))
+    r.bpsign = ctx.real("bpsign")
+    ctx.assume(And(Or(r.bpsign == 1, r.bpsign == -1), mk.at(r.Rxy, "centre") > 0, mk.at(r.hy, "centre") > 0, r.bpsign * mk.at(r.Bpxy, "centre") > 0, mk.at(r.Rxy, "ylow") > 0, mk.at(r.hy, "ylow") > 0, r.bpsign * mk.at(r.Bpxy, "ylow") > 0))
+    r.dphidy = r.hy * r.Btxy / (r.Bpxy * r.Rxy)
+    asked = []
+    tok = MLA(1, 1)
+
+    def ddx(expr):
+        asked.append(expr)
+        return tok
+
+    r.DDX = ddx
+    r.calc_curvature = lambda: None
+    M.MeshRegion.calcMetric(r)
+    with spec_mode():
+        ctx.oblige(TRUE(asked == ["#dphidy"] and r.ShiftTorsion is tok), "ShiftTorsion = DDX of dphidy (one derivative taken, of that field)")
+        ctx.oblige(TRUE(M.MeshRegion._eval_from_region(r, "#dphidy") is r.dphidy), "'#dphidy' evaluates to this region's dphidy array")
+    return r
+
+
 def run_dx_defined(ctx):
     """definedness: after the real geometry1 every dx entry DDX divides by has been assigned
     (non-zero for strictly monotone psi_vals)."""
@@ -154,6 +183,8 @@ def build(S):
             for o in (False, True):
                 S.contract("DDX[inner=%s,outer=%s]" % (i, o), FN_DDX, make_ddx_run(i, o), shape="nx=2, ny=1")
         add_ddy(S)
+        S.under_contract("hypnotoad.core.mesh:MeshRegion.calcMetric")
+        S.contract("calcMetric[ShiftTorsion]", "hypnotoad.core.mesh:MeshRegion.calcMetric", run_shift_torsion, expected_exceptions=(ValueError,), shape="one point")
         from . import chainkit
 
         for per in (False, True):
